@@ -23,7 +23,7 @@ var smtBuiltins = map[string]bool{
 	"str.contains": true, "str.indexof": true, "str.replace": true, "str.replace_all": true, "str.to_code": true,
 	"str.from_code": true, "str.<": true, "str.<=": true, "str.in_re": true, "str.to_int": true, "str.from_int": true,
 	"select": true, "store": true, "re.+": true, "re.range": true, "re.*": true, "re.++": true, "re.union": true, "str.to_re": true,
-	"re.opt": true, "re.allchar": true, "re.all": true, "re.none": true, "re.comp": true, "str.is_digit": true,
+	"byte_str": true, "re.opt": true, "re.allchar": true, "re.all": true, "re.none": true, "re.comp": true, "str.is_digit": true,
 }
 
 func (w *World) renderQuery(o *Obl, forCVC5 bool) string {
@@ -100,16 +100,40 @@ func (w *World) renderQuery(o *Obl, forCVC5 bool) string {
 	for _, v := range sortedKeys(vars) {
 		fmt.Fprintf(&b, "(declare-const %s %s)\n", v, vars[v])
 	}
+	usesByteStr := false
+	for _, t := range all {
+		walk(t, func(s *Term) {
+			if s.Kind == KApp && s.Op == "byte_str" {
+				usesByteStr = true
+			}
+		})
+	}
+	if usesByteStr {
+		b.WriteString("(define-fun byte_str ((x String)) String (ite (< (str.to_code x) 128) x (str.++ (str.from_code (+ 192 (div (str.to_code x) 64))) (str.from_code (+ 128 (mod (str.to_code x) 64))))))\n")
+	}
 	b.WriteString(defs)
 	if len(itoaArgs) > 0 {
 		b.WriteString("(declare-fun itoa_inv (String) Int)\n")
-		b.WriteString("(assert (forall ((k!i Int)) (! (= (itoa_inv (itoa k!i)) k!i) :pattern ((itoa k!i)))))\n")
-		b.WriteString("(assert (forall ((k!i Int)) (! (=> (>= k!i 0) (str.in_re (itoa k!i) (re.+ (re.range \"0\" \"9\")))) :pattern ((itoa k!i)))))\n")
 		keys := make([]string, 0, len(itoaArgs))
 		for k := range itoaArgs {
 			keys = append(keys, k)
 		}
 		sort.Strings(keys)
+		needQ := false
+		for _, k := range keys {
+			fv := map[string]string{}
+			collectVars(itoaArgs[k], fv)
+			for v := range fv {
+				if _, ok := vars[v]; !ok {
+					needQ = true
+				}
+			}
+		}
+		if needQ {
+			// itoa applied to bound variables / definition parameters: pattern-guarded axioms
+			b.WriteString("(assert (forall ((k!i Int)) (! (= (itoa_inv (itoa k!i)) k!i) :pattern ((itoa k!i)))))\n")
+			b.WriteString("(assert (forall ((k!i Int)) (! (=> (>= k!i 0) (str.in_re (itoa k!i) (re.+ (re.range \"0\" \"9\")))) :pattern ((itoa k!i)))))\n")
+		}
 		for _, k := range keys {
 			// only closed instances (no bound variables, no definition parameters)
 			fv := map[string]string{}
